@@ -1,18 +1,210 @@
 /-
   C17 — the collector's registry is exactly the set of live managed objects.
-  Property theorems only; helper lemmas are in CelloProofs/Lemmas/RHErase.lean, RHSweep.lean, Registry*.lean.
-  Model: Cello/Registry.lean.  Source-derived parameters: CelloGen/Reg.lean (`gcCfg`).
+
+  Property theorems only; helper lemmas are in CelloProofs/Lemmas/RH.lean, RHIns.lean (shared robin-hood core), RHErase.lean
+  (backward shift), RHSweep.lean (sweep compaction), Registry{Ideal,Lookup,Ins,Rehash,Mark,Ops,History}.lean.
+  Model: Cello/Registry.lean (mirrors src/GC.c as it is now).  Source-derived parameters: CelloGen/Reg.lean, bundled as
+  `gcCfg` (prime table, load factor, `size+1`, hash shift, tie rule of GC_Set_Ptr, threshold formula); `gcProbe` is GC_Probe
+  translated expression by expression.  Every theorem below that mentions `gcCfg` or `CelloGen.Reg` is re-checked
+  against the regenerated file on every run.
+
+  Assumptions, stated where used: live addresses pairwise distinct and 8-aligned (`okOp`, what malloc gives); plain destructors
+  (`noK`: destructors that delete other objects are covered by the model and the differential check, not by the history
+  theorem); sizes as natural numbers (no 2^64 wrap-around).
 -/
 import Cello.Registry
 import CelloGen.Reg
 import CelloProofs.Lemmas.RegistryIdeal
+import CelloProofs.Lemmas.RegistryLookup
+import CelloProofs.Lemmas.RegistryIns
+import CelloProofs.Lemmas.RegistryRehash
+import CelloProofs.Lemmas.RegistryOps
+import CelloProofs.Lemmas.RegistryHistory
 
 namespace Cello.Registry
 open RH
+
+/-! ### facts about the source as it is now (link A) -/
 
 /-- **GC_Ideal_Size(n) > n** over the prime table and load factor of the source as it is now: the registry always keeps an
     empty slot.  A load factor above 1 or a table ending in 0 in src/GC.c makes this theorem fail to check. -/
 theorem idealSize_gt (n : Nat) : ∃ v, idealSize gcCfg n = some v ∧ n < v :=
   idealSize_gt_of gcCfg n (by decide) (by decide) (by decide) (by decide)
+
+/-- the parameters of the source satisfy what the history theorem needs -/
+theorem gcCfg_good : GoodCfg gcCfg := ⟨by decide, by decide, by decide, by decide⟩
+
+/-- **GC_Probe is the cyclic distance.**  The C expression (`v = i - (h-1); if (v < 0) v = nslots + v`) on a stored hash
+    `h = home + 1` equals the model's `dist`. -/
+theorem gcProbe_eq_dist (n i h : Nat) (_hi : i < n) (h1 : 1 ≤ h) (hh : h - 1 < n) :
+    CelloGen.Reg.gcProbe n i h = (dist n i (h - 1) : Nat) := by
+  unfold CelloGen.Reg.gcProbe dist
+  simp only []
+  split <;> split <;> omega
+
+/-- **GC_Hash** of the source is `address / 8` -/
+theorem gcHash_eq (p : Nat) : hashOf gcCfg p = p / 8 := by
+  show p >>> 3 = p / 8
+  rw [Nat.shiftRight_eq_div_pow]
+
+/-- the entry layout the model is written against -/
+theorem gcEntry_fields : CelloGen.Reg.gcEntryFields = ["var ptr", "uint64_t hash", "bool root", "bool marked"] := by decide
+
+/-- the prime table has the declared number of entries -/
+theorem gcPrimes_count : CelloGen.Reg.gcPrimes.length = CelloGen.Reg.gcPrimesCount := by decide
+
+/-! ### the robin-hood operations (for every hash function, every address pattern, every table size) -/
+
+/-- **Lookup is membership.**  Under the local invariant (stored home = hash mod n, distinct keys, every displaced entry
+    supported by its predecessor, one empty slot) the probing loop of GC_Mem_Ptr, with its early exit, answers `true`
+    exactly for the stored keys, and always answers within `n` iterations. -/
+theorem C17_lookup_correct {n : Nat} (hash : Nat → Nat) (s : Slots Nat Payload n) (inv : Inv hash s) (hn : 0 < n) (k : Nat) :
+    (lookup hash s k hn = some true ↔ Present s k) ∧ (lookup hash s k hn = some false ↔ ¬ Present s k) :=
+  lookup_correct hash s inv hn k
+
+/-- **Insertion (GC_Set_Ptr) preserves the invariant and adds exactly the new entry**, for either tie rule, whenever the
+    pointer is not stored yet and an empty slot remains afterwards (which GC_Resize_More guarantees: `idealSize_gt`). -/
+theorem C17_insert_inv {n : Nat} (c : Cfg) (s : Slots Nat Payload n) (inv : Inv0 (hashOf c) s) (p : Nat) (root : Bool)
+    (hfresh : ∀ q (hq : q < n) e, s[q] = some e → e.key ≠ p) (hroom : occ s + 1 < n) :
+    ∃ s', setPtr c s p root = some s' ∧ Inv0 (hashOf c) s' ∧
+      (∀ e, Mem s' e ↔ Mem s e ∨ e = ⟨p, hashOf c p % n, ⟨root, false⟩⟩) ∧ occ s' = occ s + 1 :=
+  setPtr_spec c s inv p root hfresh hroom
+
+/-- **Erase (backward shift) preserves the invariant**: zeroing an occupied slot and moving the following displaced entries
+    back terminates and leaves a table that satisfies the invariant and still has its empty slot. -/
+theorem C17_erase_inv {n : Nat} (hash : Nat → Nat) (s : Slots Nat Payload n) (inv : Inv0 hash s) (i : Nat) (hi : i < n) (x : Ent)
+    (hx : s[i] = some x) (z : Nat) (hz : z < n) (hze : s[z] = none) :
+    ∃ s', eraseAt s i hi = some s' ∧ Inv0 hash s' ∧ s'[z] = none := by
+  obtain ⟨s', h1, h2, h3, _⟩ := eraseAt_spec hash s inv i hi x hx z hz hze
+  exact ⟨s', h1, h2, h3⟩
+
+/-- **Erase removes exactly the erased entry**: every other entry is still stored (payload included), the erased one is
+    not, and one slot fewer is occupied. -/
+theorem C17_erase_abs {n : Nat} (hash : Nat → Nat) (s : Slots Nat Payload n) (inv : Inv0 hash s) (i : Nat) (hi : i < n) (x : Ent)
+    (hx : s[i] = some x) (z : Nat) (hz : z < n) (hze : s[z] = none) :
+    ∃ s', eraseAt s i hi = some s' ∧ (∀ e, Mem s' e ↔ Mem s e ∧ e ≠ x) ∧ occ s' + 1 = occ s := by
+  obtain ⟨s', h1, _, _, h4, h5, _⟩ := eraseAt_spec hash s inv i hi x hx z hz hze
+  exact ⟨s', h1, h4, h5⟩
+
+/-- **GC_Rehash**: re-inserting into a larger or smaller empty table keeps exactly the entries (home slot recomputed,
+    mark dropped) and establishes the invariant, provided the new size exceeds the number of entries. -/
+theorem C17_rehash (c : Cfg) (r : Reg) (inv : Inv0 (hashOf c) r.slots) (newSize : Nat) (hroom : occ r.slots < newSize) :
+    ∃ t : Slots Nat Payload newSize, rehash c r newSize = some { r with n := newSize, slots := t } ∧ Inv0 (hashOf c) t ∧
+      (∀ e', Mem t e' ↔ ∃ e, Mem r.slots e ∧ e' = rehome c newSize e) ∧ occ t = occ r.slots :=
+  rehash_spec c r inv newSize hroom
+
+/-- **Sweep compaction** (the `while (i < nslots)` loop of GC_Sweep, including the wrap-around case in which the shift moves
+    slot 0 into slot n−1): it terminates; afterwards the table satisfies the invariant and stores exactly the entries that
+    are marked or roots; every other entry is on the pending list exactly once; the item count dropped by their number. -/
+theorem C17_sweep_spec {n : Nat} (hash : Nat → Nat) (s : Slots Nat Payload n) (ni : Nat) (inv : Inv0 hash s)
+    (hroom : occ s < n ∨ n = 0) :
+    ∃ (s' : Slots Nat Payload n) (removed : List Ent),
+      sweepLoop (2 * n + 1) s 0 #[] ni = some (s', (removed.map (fun x => some x.key)).toArray, ni - removed.length) ∧
+      Inv0 hash s' ∧ (∀ e, Mem s e ↔ Mem s' e ∨ e ∈ removed) ∧ (∀ e, Mem s' e → Keep e) ∧ (∀ e, e ∈ removed → ¬ Keep e) ∧
+      (∀ e, e ∈ removed → ¬ Mem s' e) ∧ removed.Nodup ∧ occ s' + removed.length = occ s :=
+  sweepLoop_total hash s ni inv hroom
+
+/-- **GC_Sweep as a whole** against a ledger: from a state whose entries are the ledger's (with mark bits `mk`), the
+    sweep, the mark clearing, GC_Resize_Less and the finalisation leave exactly the roots and the marked objects,
+    unmarked, with consistent count, an empty slot, unchanged bounds and an empty pending list. -/
+theorem C17_sweep_registry (r : Reg) (L : Ledger) (mk : Nat → Bool → Bool) (h : Core gcCfg r L mk)
+    (hc : r.nitems = occ r.slots) (hroom : Room r) :
+    ∃ r' t, gcSweep gcCfg noK r = some (r', t) ∧ Core gcCfg r' (collectBy L mk) noMark ∧ r'.nitems = occ r'.slots ∧ Room r' ∧
+      r'.minptr = r.minptr ∧ r'.maxptr = r.maxptr ∧ r'.pending = #[] := by
+  obtain ⟨r', t, h1, h2, h3, h4, h5, h6, _, h8, _⟩ := gcSweep_core gcCfg gcCfg_good r L mk h hc hroom
+  exact ⟨r', t, h1, h2, h3, h4, h5, h6, h8⟩
+
+/-! ### the history theorem -/
+
+/-- what "the registry is exactly the set of live managed objects" means for a state `r` and a ledger `L` -/
+structure Exact (c : Cfg) (r : Reg) (L : Ledger) : Prop where
+  /-- `mem(gc, p)` holds precisely for the ledger's addresses (and the lookup loop always answers) -/
+  mem : ∀ p, memPtr c r p = some (decide (p ∈ L.map Prod.fst))
+  /-- the stored entries are the ledger's items: right root flag, right home slot, unmarked -/
+  entries : ∀ e, Mem r.slots e ↔ ((e.key, e.val.root) ∈ L ∧ e.val.marked = false ∧ e.home = hashOf c e.key % r.n)
+  /-- each is recorded once -/
+  once : ∀ i j (hi : i < r.n) (hj : j < r.n) e e', r.slots[i] = some e → r.slots[j] = some e' → e.key = e'.key → i = j
+  /-- the recorded count matches -/
+  count : r.nitems = L.length ∧ r.nitems = occ r.slots
+  /-- every live address lies within `[minptr, maxptr]` -/
+  bounds : ∀ p b, (p, b) ∈ L → r.minptr ≤ p ∧ p ≤ r.maxptr
+  /-- the local robin-hood invariant, and an empty slot -/
+  inv : Inv0 (hashOf c) r.slots
+  empty : r.n = 0 ∨ ∃ z, ∃ hz : z < r.n, r.slots[z] = none
+  /-- no object is waiting to be finalised outside a collection -/
+  pending : r.pending = #[]
+
+/-- **C17.**  For every history of allocations (managed, root, raw), deletions, collections with an arbitrary mark set
+    (explicit, or triggered by an allocation that reaches the threshold), `stop` and `start`, in which a new object's address
+    is 8-aligned and differs from the live managed ones, at every step: `mem` holds exactly for the objects allocated through
+    the running collector and neither deleted nor reclaimed, each is recorded once with its allocation-time root flag,
+    `nitems` is their number, their addresses lie within `[minptr, maxptr]`, all marks are clear and the table satisfies the
+    robin-hood invariant with an empty slot.  `Reach` quantifies over all histories and all their prefixes. -/
+theorem C17_registry_exact (r : Reg) (L : Ledger) (h : Reach gcCfg r L) : Exact gcCfg r L := by
+  have hwf := reach_wf gcCfg gcCfg_good r L h
+  refine ⟨wf_mem gcCfg r L hwf, hwf.core.ents, hwf.core.inv.distinct, ⟨wf_count gcCfg r L hwf, hwf.count⟩,
+    hwf.bounded.bounds, hwf.core.inv, ?_, hwf.pend⟩
+  rcases Nat.eq_zero_or_pos r.n with h0 | hn
+  · exact Or.inl h0
+  · exact Or.inr (empty_of_room r hwf.count hn hwf.room)
+
+/-- **The model never gets stuck** on such a history: no division by zero (`nslots = 0`), no probing loop that fails to
+    terminate, GC_Ideal_Size always answers. -/
+theorem C17_progress (r : Reg) (L : Ledger) (h : Reach gcCfg r L) (op : Op) (hok : okOp L op) :
+    ∃ r', step gcCfg r op = some r' ∧ Reach gcCfg r' (ledgerStep r L op) := by
+  obtain ⟨r', h1, _⟩ := step_wf gcCfg gcCfg_good r L (reach_wf gcCfg gcCfg_good r L h) op hok
+  exact ⟨r', h1, Reach.step h hok h1⟩
+
+/-- the ledger only ever holds pairwise distinct addresses, and deleting removes exactly the deleted address -/
+theorem C17_ledger_distinct (r : Reg) (L : Ledger) (h : Reach gcCfg r L) : (L.map Prod.fst).Nodup :=
+  (reach_wf gcCfg gcCfg_good r L h).nodup
+
+/-! ### non-vacuity: concrete histories and states -/
+
+def demoA : Nat := 35184372088864
+
+/-- colliding addresses (hashes ≡ 3 mod 5 and ≡ 8 mod 11): a first allocation that triggers a collection and survives it
+    because it is marked, a root, growth from 5 to 11 slots, a deletion, a collection that keeps one marked object and the
+    root and shrinks the table, and a deletion while the collector is stopped (a no-op of the registry) -/
+def demoOps : List Op :=
+  [.new demoA false [demoA], .new (demoA+440) true [], .new (demoA+880) false [demoA, demoA+880], .new (demoA+1320) false [],
+   .new (demoA+1760) false [], .del (demoA+880), .sweep [demoA], .stop, .del demoA, .start]
+
+def runOps (c : Cfg) : Reg → Ledger → List Op → Option (Reg × Ledger)
+  | r, L, [] => some (r, L)
+  | r, L, op :: ops => match step c r op with
+    | none => none
+    | some r' => runOps c r' (ledgerStep r L op) ops
+
+example : (runOps gcCfg Reg.init [] (demoOps.take 5)).map (fun x => (x.1.n, x.1.nitems, x.2.length)) = some (11, 5, 5) := by
+  decide +kernel
+
+example : (runOps gcCfg Reg.init [] demoOps).map (fun x => (x.1.n, x.1.nitems, x.1.mitems, x.2)) =
+    some (5, 2, 4, [(demoA+440, true), (demoA, false)]) := by decide +kernel
+
+/-- reachable states with a non-empty ledger exist (so `C17_registry_exact` is not vacuous): by `C17_progress` any
+    admissible operation extends a history -/
+example : ∃ r, Reach gcCfg r [(8, false)] := by
+  obtain ⟨r', _, h⟩ := C17_progress Reg.init [] Reach.init (.new 8 false [8]) ⟨by simp, by decide⟩
+  exact ⟨r', h⟩
+
+/-- a table with a wrapped cluster (key 5 displaced from home slot 2 into slot 0) meets the hypotheses of the lookup, erase and
+    sweep theorems -/
+example : ∃ (s : Slots Nat Payload 3), Inv (fun p => p) s ∧ Present s 5 ∧ occ s = 2 ∧ dist 3 0 2 = 1 := by
+  refine ⟨#v[some ⟨5, 2, ⟨false, false⟩⟩, none, some ⟨2, 2, ⟨true, true⟩⟩], ?_, ⟨0, by decide, _, rfl, rfl⟩, by decide, by decide⟩
+  refine ⟨?_, ?_, ?_, ⟨1, by decide, rfl⟩⟩
+  · intro i hi e he
+    have : i = 0 ∨ i = 1 ∨ i = 2 := by omega
+    rcases this with rfl | rfl | rfl <;> simp at he <;> subst he <;> decide
+  · intro i j hi hj e e' he he' hk
+    have h1 : i = 0 ∨ i = 1 ∨ i = 2 := by omega
+    have h2 : j = 0 ∨ j = 1 ∨ j = 2 := by omega
+    rcases h1 with rfl | rfl | rfl <;> rcases h2 with rfl | rfl | rfl <;> simp at he he' <;> subst he <;> subst he' <;>
+      first | rfl | (simp at hk)
+  · intro i hi e he hpos
+    have : i = 0 ∨ i = 1 ∨ i = 2 := by omega
+    rcases this with rfl | rfl | rfl <;> simp at he <;> subst he
+    · exact ⟨⟨2, 2, ⟨true, true⟩⟩, rfl, by decide⟩
+    · exact absurd hpos (by decide)
 
 end Cello.Registry
